@@ -14,6 +14,7 @@ interposer that kills it at the k-th open/write/close on targets.lst, for every 
 """
 import os
 import random
+import select
 import shutil
 import subprocess
 from concurrent.futures import ThreadPoolExecutor
@@ -241,7 +242,12 @@ class Session:
         try:
             self.p.stdin.write(line + "\n")
             self.p.stdin.flush()
-            out = self.p.stdout.readline()
+            ready, _, _ = select.select([self.p.stdout], [], [], 180)
+            if ready:
+                out = self.p.stdout.readline()
+            else:
+                self.p.kill()
+                out = "HANG\n"
         except (BrokenPipeError, OSError):
             out = ""
         if out.endswith("\n") and out.strip() != "HANG":
@@ -288,7 +294,10 @@ def answer_desc(a):
     if a.startswith("ok"):
         return ("ok", dec_desc(a.split()[1:]))
     if a.startswith("err"):
-        return ("err", a[4:])
+        try:
+            return ("err", unhx(a.split()[1])[:300])
+        except (ValueError, IndexError):
+            return ("err", a[4:300])
     return ("crash", a)
 
 
@@ -756,17 +765,36 @@ def mfront_stage(ck, rng, report, stats):
         import re
         return text, set(re.findall(r'library : \{\nname   : "([^"]*)"', text))
 
-    n_hist = 6
+    n_hist = 4
     for h in range(n_hist):
         wd = ck.path("mf%d" % h)
         shutil.rmtree(wd, ignore_errors=True)
         os.makedirs(wd)
         laws = []
-        for i in range(4):
+        for i in range(3):
             law = "Law%d_%d" % (h, i)
             open(os.path.join(wd, law + ".mfront"), "w").write(MFRONT_FILE % (law, i, i))
             laws.append(law)
         registered = set()
+        # a first uninterrupted run registers many libraries at once, so that the registry exceeds the stream
+        # buffer and the later updates need several write system calls (crash points in the middle of the file)
+        bulk = []
+        for j in range(28):
+            law = "Bulk%d_%d" % (h, j)
+            open(os.path.join(wd, law + ".mfront"), "w").write(MFRONT_FILE % (law, 100 + j, j))
+            bulk.append(law + ".mfront")
+        eb = dict(env)
+        eb.update({"LD_PRELOAD": lib, "C47_SEM_SUFFIX": suffix})
+        try:
+            qb = subprocess.run([mfront, "--interface=c"] + bulk, cwd=wd, env=eb, stdout=subprocess.PIPE,
+                                stderr=subprocess.PIPE, text=True, timeout=600)
+            out["runs"] += 1
+            if qb.returncode == 0:
+                registered = libs_of(wd)[1] or set()
+                out["bulk_registry_bytes"] = len(libs_of(wd)[0] or "")
+        except subprocess.TimeoutExpired:
+            ck.notes.append("the bulk mfront run blocked: binary stage stopped")
+            return out
         for i, law in enumerate(laws):
             itf = rng.choice(interfaces)
             # dry run on a copy to count the system calls of this update, then crash at every one of them
